@@ -2,7 +2,7 @@
     what MetaExtractor(...)(dataset) returned (or the class of the exception it raised). *)
 From Coq Require Import Strings.String.
 From Coq Require Import List Bool NArith ZArith.
-From DV Require Import Common.Res Common.Str Common.PyNum Generated.T_extract Extract.Model.
+From DV Require Import Common.Res Common.Str Common.PyNum Generated.T_extract Extract.Model Extract.ProofsStr Extract.Spec Extract.Decl.
 Import ListNotations.
 Local Open Scope N_scope.
 
@@ -54,7 +54,8 @@ Definition model (k : case) : res dict := extract fuel (config_of k) (k_ds k).
 
 (** Input consistency (pydicom facts the theorems take as hypotheses, verified on every case):
     a single DS / IS value that carries the text it was made from has the value float(text) / int(text);
-    an element is called "Private Creator" exactly when its group is odd and its element is in 0x10..0xff. *)
+    an element is called "Private Creator" exactly when its group is odd and its element is in 0x10..0xff
+    (Decl.names_wf, here at every nesting level). *)
 Fixpoint raw_ok (i : einfo) (v : val) {struct v} : bool :=
   match v with
   | VSeq items => forallb (fun item => forallb (fun p => raw_ok (fst p) (snd p)) item) items
@@ -69,10 +70,8 @@ Fixpoint raw_ok (i : einfo) (v : val) {struct v} : bool :=
   | _ => true
   end.
 
-Definition creator_tag (t : tag) : bool := N.odd (fst t) && (16 <=? snd t) && (snd t <=? 255).
-
 Fixpoint creators_ok (i : einfo) (v : val) {struct v} : bool :=
-  Bool.eqb (str_eqb (e_name i) private_creator_name) (creator_tag (e_tag i)) &&
+  Bool.eqb (str_eqb (e_name i) private_creator_name) (d_creator_tag (e_tag i)) &&
   match v with
   | VSeq items => forallb (fun item => forallb (fun p => creators_ok (fst p) (snd p)) item) items
   | _ => true
@@ -81,6 +80,33 @@ Fixpoint creators_ok (i : einfo) (v : val) {struct v} : bool :=
 Definition inputs_ok (ds : dataset) : bool :=
   forallb (fun p => raw_ok (fst p) (snd p) && creators_ok (fst p) (snd p)) ds.
 
-Definition check (k : case) : bool := inputs_ok (k_ds k) && res_eqb dict_eqb (model k) (k_obs k).
+(** The declarative reading (Extract/Decl.v) against the implementation directly: whenever the boolean hypotheses of
+    C15_decl_keys hold for the top-level dataset, the keys the implementation returned are the expected keys. *)
+Fixpoint tags_nodupb (l : list tag) : bool :=
+  match l with
+  | [] => true
+  | x :: r => negb (existsb (tag_eqb x) r) && tags_nodupb r
+  end.
+
+Fixpoint str_list_eqb (a b : list str) : bool :=
+  match a, b with
+  | [], [] => true
+  | x :: a', y :: b' => str_eqb x y && str_list_eqb a' b'
+  | _, _ => false
+  end.
+
+Definition decl_check (k : case) : bool :=
+  match k_obs k with
+  | Ok r =>
+      let cfg := config_of k in let ds := k_ds k in
+      if names_wf ds && tags_nodupb (map etag ds) && no_suffix_clash ds && no_dot_keys ds
+         && trans_names_dot_free cfg && bound_once cfg ds
+      then str_list_eqb (map fst r) (d_expected_keys cfg ds)
+      else true
+  | Err _ => true
+  end.
+
+Definition check (k : case) : bool :=
+  inputs_ok (k_ds k) && res_eqb dict_eqb (model k) (k_obs k) && decl_check k.
 
 Definition show (k : case) := model k.
